@@ -150,6 +150,21 @@ func TestVerif_C05u(t *testing.T) {
 			dmd["annotations"] = map[string]interface{}{"keep": "me"}
 		}
 		d["apiVersion"], d["kind"], d["metadata"] = "v1", "Pod", dmd
+		if r.Chance(1, 8) {
+			// a desired object that says nothing about some top-level stanza the observed one has
+			// (no metadata at all; or no spec): those observed parts are carried over, never shared
+			if r.Bool() {
+				delete(d, "metadata")
+				feature += "+desired-without-metadata"
+			} else {
+				for k := range d {
+					if k != "apiVersion" && k != "kind" && k != "metadata" {
+						delete(d, k)
+					}
+				}
+				feature += "+desired-metadata-only"
+			}
+		}
 		o0 := runtime.DeepCopyJSON(o)
 		d0 := runtime.DeepCopyJSON(d)
 		out, dAfter := runApplyUpdate(o, d)
